@@ -168,11 +168,24 @@ func (ex *Exec) Certificate() *Cert {
 		}
 	}
 	// locks: acquisition order of one mutex by different goroutines
+	// (two read locks commute: a read lock is compared with the last write lock only,
+	// a write lock with the last write lock and with every read lock since)
 	lastLock := map[*Value]*Event{}
+	readSince := map[*Value][]*Event{}
 	for _, e := range ex.lockOrder {
 		if p := lastLock[e.cell]; p != nil && p.g != e.g {
 			pairs = append(pairs, hbPair{find(p.id), init(e), fmt.Sprintf("lock acquisitions by g%d and g%d", p.g, e.g), false})
 		}
+		if e.kind == "rlock" {
+			readSince[e.cell] = append(readSince[e.cell], e)
+			continue
+		}
+		for _, r := range readSince[e.cell] {
+			if r.g != e.g {
+				pairs = append(pairs, hbPair{find(r.id), init(e), fmt.Sprintf("lock acquisitions by g%d and g%d", r.g, e.g), false})
+			}
+		}
+		readSince[e.cell] = nil
 		lastLock[e.cell] = e
 	}
 	// memory cells
